@@ -32,9 +32,18 @@ func checkC19(c *Ctx, r *Report) {
 		n := callName(ci.Common())
 		return (n == "sync.Mutex.Unlock" || n == "sync.RWMutex.Unlock" || n == "sync.RWMutex.RUnlock") && isMu(ci.Common().Args[0])
 	}
+	// exclusive holds only: a read lock of an RWMutex does not protect a write
+	isXLock := func(ci ssa.CallInstruction) bool {
+		n := callName(ci.Common())
+		return (n == "sync.Mutex.Lock" || n == "sync.RWMutex.Lock") && isMu(ci.Common().Args[0])
+	}
+	isXUnlock := func(ci ssa.CallInstruction) bool {
+		n := callName(ci.Common())
+		return (n == "sync.Mutex.Unlock" || n == "sync.RWMutex.Unlock") && isMu(ci.Common().Args[0])
+	}
 	nAcc := 0
 	for _, fn := range c.SrcFuncs(pkg) {
-		var held map[ssa.Instruction]bool
+		var held, heldX map[ssa.Instruction]bool
 		eachInstr(fn, func(_ *ssa.BasicBlock, _ int, instr ssa.Instruction) {
 			// an access is any instruction that has the map field's address, or a value loaded from
 			// it, as an operand (load, store, lookup, update, delete, len, range)
@@ -75,6 +84,14 @@ func checkC19(c *Ctx, r *Report) {
 			if s := c.exprAt(fn, instr.Pos()); s != "" {
 				desc += " in " + s
 			}
+			if what != "read" {
+				if heldX == nil {
+					heldX = heldAt(fn, isXLock, isXUnlock)
+				}
+				r.Check("C19-lock", fnName(fn), desc, c.pos(instr.Pos()), heldX[instr],
+					"dialers.mu is held exclusively on every path to this write", "dialers.mu is not held exclusively on every path to this write (a read lock admits concurrent readers and writers: concurrent map read and map write with a dial or another unregister)")
+				return
+			}
 			r.Check("C19-lock", fnName(fn), desc, c.pos(instr.Pos()), held[instr],
 				"dialers.mu is held on every path to this access", "dialers.mu is not held on every path to this access (data race with concurrent register/unregister/dial)")
 		})
@@ -93,6 +110,81 @@ func checkC19(c *Ctx, r *Report) {
 			}
 			r.Check("C19-lock", fnName(fn), "call-out "+c.exprAt(fn, ci.Pos()), c.pos(ci.Pos()), !held[ci],
 				"made without holding dialers.mu", "an interface call (a dialer) is made while dialers.mu is held: concurrent register/unregister/dial calls block for the whole dial, and a dialer that dials through the registry deadlocks")
+		}
+	}
+
+	// ---- C19-register: the last registration for a scheme wins, on every path
+	r.Rule("C19-register", 2, "registering a dialer always replaces the scheme's entry")
+	{
+		isUpdate := func(fn *ssa.Function, in ssa.Instruction) bool {
+			mu, ok := in.(*ssa.MapUpdate)
+			if !ok || !strings.HasSuffix(pathOf(mu.Map), "transport.dialers.m") {
+				return false
+			}
+			keyOK, valOK := false, false
+			for _, p := range fn.Params {
+				if isStringLike(p.Type()) && sameSlotValue(mu.Key, p) {
+					keyOK = true
+				}
+				if !isStringLike(p.Type()) && dependsOn(mu.Value, func(x ssa.Value) bool { return sameSlotValue(x, p) }) {
+					valOK = true
+				}
+			}
+			return keyOK && valOK
+		}
+		registers := map[*ssa.Function]bool{}
+		var decide func(fn *ssa.Function, depth int) bool
+		decide = func(fn *ssa.Function, depth int) bool {
+			if v, ok := registers[fn]; ok {
+				return v
+			}
+			registers[fn] = false
+			var ups []ssa.Instruction
+			eachInstr(fn, func(_ *ssa.BasicBlock, _ int, in ssa.Instruction) {
+				if isUpdate(fn, in) {
+					ups = append(ups, in)
+				}
+				if call, ok := in.(*ssa.Call); ok && depth < 3 {
+					if callee := call.Call.StaticCallee(); callee != nil && callee != fn && pkgRel(callee) == pkg && len(call.Call.Args) >= 2 {
+						// delegation: scheme passed on unchanged, dialer passed on (possibly wrapped)
+						passScheme, passDialer := false, false
+						for _, p := range fn.Params {
+							if isStringLike(p.Type()) && sameSlotValue(call.Call.Args[0], p) {
+								passScheme = true
+							}
+							if !isStringLike(p.Type()) && dependsOn(call.Call.Args[1], func(x ssa.Value) bool { return sameSlotValue(x, p) }) {
+								passDialer = true
+							}
+						}
+						if passScheme && passDialer && decide(callee, depth+1) {
+							ups = append(ups, in)
+						}
+					}
+				}
+			})
+			all := len(ups) > 0
+			for _, ret := range returnsOf(fn) {
+				dom := false
+				for _, u := range ups {
+					if instrDominates(u, ret) {
+						dom = true
+					}
+				}
+				if !dom {
+					all = false
+				}
+			}
+			registers[fn] = all
+			return all
+		}
+		for _, n := range []string{"RegisterDialer", "RegisterContextDialer"} {
+			fn := c.Func(pkg, n)
+			if fn == nil {
+				r.Fail("C19-register", "anchor transport.%s not found", n)
+				continue
+			}
+			r.Check("C19-register", fnName(fn), "every return follows dialers.m[scheme] = dialer", c.pos(fn.Pos()), decide(fn, 0),
+				"the entry for the scheme is replaced on every path (directly or by delegating scheme and dialer to a function that does)", "a return can be reached without replacing the scheme's entry (e.g. when one is already registered): a later dial reaches the old dialer instead of the one registered last")
 		}
 	}
 
